@@ -37,6 +37,24 @@ Fixpoint nth_match (ic : bool) (needle text : str) (lo k p : nat) {struct k} : P
                        nth_match ic needle text (p0 + Nat.max 1 (length needle)) k' p
   end.
 
+(* [p] is the last occurrence that ends at or before [hi] *)
+Definition last_before (ic : bool) (needle text : str) (hi p : nat) : Prop :=
+  (p + length needle <= hi)%nat /\ occurs_at ic needle text p /\
+  forall o, (p < o)%nat -> (o + length needle <= hi)%nat -> ~ occurs_at ic needle text o.
+
+(* [p] is the (k+1)-th match of the non-overlapping scan that runs BACKWARDS
+   from [hi]: after a match at p0 (ending at p0 + |needle|) the scan resumes
+   with matches ending at or before p0 + |needle| - max 1 |needle| (= p0 for a
+   non-empty needle) *)
+Fixpoint nth_match_back (ic : bool) (needle text : str) (hi k p : nat) {struct k} : Prop :=
+  match k with
+  | O => last_before ic needle text hi p
+  | S k' => exists p0, last_before ic needle text hi p0 /\
+                       (Nat.max 1 (length needle) <= p0 + length needle)%nat /\
+                       nth_match_back ic needle text
+                         (p0 + length needle - Nat.max 1 (length needle)) k' p
+  end.
+
 (* no occurrence anywhere in the entry *)
 Definition absent (ic : bool) (needle text : str) : Prop :=
   forall q, ~ occurs ic needle text q.
